@@ -1,0 +1,379 @@
+//! Verification hooks (cargo feature `verif-hooks`, off by default).
+//!
+//! Nothing in here changes the behaviour of the library: the module re-exports
+//! crate-private functions unchanged, offers a per-thread event trace that the
+//! trace points in `sign`, `ntru_gen` and `ffsampling` write to when (and only
+//! when) a trace has been started, and a random-generator wrapper that forwards
+//! to the original generator unless the calling thread has injected its own.
+
+use std::cell::RefCell;
+
+use num::BigInt;
+use num_complex::Complex64;
+use rand::RngCore;
+
+use crate::{
+    falcon_field::Felt, fast_fft::FastFft, inverse::Inverse, polynomial::Polynomial,
+    u32_field::U32Field,
+};
+
+// ---------------------------------------------------------------------------------------------
+// event trace
+// ---------------------------------------------------------------------------------------------
+
+#[derive(Debug, Clone)]
+pub struct Event {
+    pub tag: &'static str,
+    pub ints: Vec<i64>,
+    pub floats: Vec<f64>,
+    pub bytes: Vec<u8>,
+}
+
+thread_local! {
+    static TRACE: RefCell<Option<Vec<Event>>> = const { RefCell::new(None) };
+    static TRACE_RNG: RefCell<bool> = const { RefCell::new(false) };
+    static INJECT: RefCell<Option<Box<dyn RngCore>>> = const { RefCell::new(None) };
+}
+
+/// Start recording events on this thread (`with_rng_draws`: also record every generator draw).
+pub fn trace_start(with_rng_draws: bool) {
+    TRACE.with(|t| *t.borrow_mut() = Some(vec![]));
+    TRACE_RNG.with(|t| *t.borrow_mut() = with_rng_draws);
+}
+
+/// Stop recording and return what was recorded on this thread.
+pub fn trace_take() -> Vec<Event> {
+    TRACE_RNG.with(|t| *t.borrow_mut() = false);
+    TRACE.with(|t| t.borrow_mut().take()).unwrap_or_default()
+}
+
+pub fn emit(tag: &'static str, ints: Vec<i64>, floats: Vec<f64>, bytes: Vec<u8>) {
+    TRACE.with(|t| {
+        if let Some(v) = t.borrow_mut().as_mut() {
+            v.push(Event {
+                tag,
+                ints,
+                floats,
+                bytes,
+            })
+        }
+    });
+}
+
+fn tracing() -> bool {
+    TRACE.with(|t| t.borrow().is_some())
+}
+
+pub(crate) fn trace_tag(tag: &'static str) {
+    if tracing() {
+        emit(tag, vec![], vec![], vec![]);
+    }
+}
+
+pub(crate) fn trace_f64(tag: &'static str, x: f64) {
+    if tracing() {
+        emit(tag, vec![], vec![x], vec![]);
+    }
+}
+
+pub(crate) fn trace_bytes(tag: &'static str, b: &[u8]) {
+    if tracing() {
+        emit(tag, vec![], vec![], b.to_vec());
+    }
+}
+
+pub(crate) fn trace_i16s(tag: &'static str, a: &[i16], b: &[i16]) {
+    if tracing() {
+        let mut ints: Vec<i64> = a.iter().map(|&x| x as i64).collect();
+        ints.extend(b.iter().map(|&x| x as i64));
+        emit(tag, ints, vec![], vec![]);
+    }
+}
+
+/// the sampled lattice point in coefficient form (real parts of the inverse FFT, unrounded)
+pub(crate) fn trace_sign_z(z0: &Polynomial<Complex64>, z1: &Polynomial<Complex64>) {
+    if tracing() {
+        let mut floats: Vec<f64> = z0.ifft().coefficients.iter().map(|c| c.re).collect();
+        floats.extend(z1.ifft().coefficients.iter().map(|c| c.re));
+        emit("sign.z", vec![], floats, vec![]);
+    }
+}
+
+pub(crate) fn trace_sign_s2(s2: &Polynomial<Complex64>, compressed: bool) {
+    if tracing() {
+        let floats: Vec<f64> = s2.coefficients.iter().map(|c| c.re).collect();
+        emit("sign.s2", vec![compressed as i64], floats, vec![]);
+    }
+}
+
+pub(crate) fn trace_leaf(mu0: f64, mu1: f64, sigma_leaf: f64, z0: i16, z1: i16) {
+    if tracing() {
+        emit(
+            "ffsampling.leaf",
+            vec![z0 as i64, z1 as i64],
+            vec![mu0, mu1, sigma_leaf],
+            vec![],
+        );
+    }
+}
+
+// ---------------------------------------------------------------------------------------------
+// random generator wrapper
+// ---------------------------------------------------------------------------------------------
+
+/// Make every `HookRng` created on this thread draw from `source` instead of its own generator.
+pub fn rng_inject(source: Box<dyn RngCore>) {
+    INJECT.with(|i| *i.borrow_mut() = Some(source));
+}
+
+/// Back to the original generators.
+pub fn rng_clear() {
+    INJECT.with(|i| *i.borrow_mut() = None);
+}
+
+/// Forwards to the wrapped generator unless the thread injected a source.
+pub struct HookRng<R: RngCore>(R);
+
+impl<R: RngCore> HookRng<R> {
+    pub fn new(inner: R) -> Self {
+        HookRng(inner)
+    }
+}
+
+impl<R: RngCore> RngCore for HookRng<R> {
+    fn next_u32(&mut self) -> u32 {
+        let v = INJECT.with(|i| match i.borrow_mut().as_mut() {
+            Some(src) => src.next_u32(),
+            None => self.0.next_u32(),
+        });
+        if TRACE_RNG.with(|t| *t.borrow()) {
+            emit("rng.next_u32", vec![v as i64], vec![], vec![]);
+        }
+        v
+    }
+
+    fn next_u64(&mut self) -> u64 {
+        let v = INJECT.with(|i| match i.borrow_mut().as_mut() {
+            Some(src) => src.next_u64(),
+            None => self.0.next_u64(),
+        });
+        if TRACE_RNG.with(|t| *t.borrow()) {
+            emit("rng.next_u64", vec![v as i64], vec![], vec![]);
+        }
+        v
+    }
+
+    fn fill_bytes(&mut self, dest: &mut [u8]) {
+        INJECT.with(|i| match i.borrow_mut().as_mut() {
+            Some(src) => src.fill_bytes(dest),
+            None => self.0.fill_bytes(dest),
+        });
+        if TRACE_RNG.with(|t| *t.borrow()) {
+            emit("rng.fill_bytes", vec![], vec![], dest.to_vec());
+        }
+    }
+
+    fn try_fill_bytes(&mut self, dest: &mut [u8]) -> Result<(), rand::Error> {
+        self.fill_bytes(dest);
+        Ok(())
+    }
+}
+
+// ---------------------------------------------------------------------------------------------
+// crate-private functions, unchanged
+// ---------------------------------------------------------------------------------------------
+
+pub fn compress(v: &[i16], byte_length: usize) -> Option<Vec<u8>> {
+    crate::encoding::compress(v, byte_length)
+}
+
+pub fn decompress(x: &[u8], n: usize) -> Option<Vec<i16>> {
+    crate::encoding::decompress(x, n)
+}
+
+pub fn hash_to_point(string: &[u8], n: usize) -> Vec<u32> {
+    crate::polynomial::hash_to_point(string, n)
+        .coefficients
+        .iter()
+        .map(|c| c.verif_raw())
+        .collect()
+}
+
+pub fn felt_new(v: i16) -> u32 {
+    Felt::new(v).verif_raw()
+}
+pub fn felt_value(a: u32) -> i16 {
+    Felt::verif_from_raw(a).value()
+}
+pub fn felt_balanced(a: u32) -> i16 {
+    Felt::verif_from_raw(a).balanced_value()
+}
+pub fn felt_add(a: u32, b: u32) -> u32 {
+    (Felt::verif_from_raw(a) + Felt::verif_from_raw(b)).verif_raw()
+}
+pub fn felt_sub(a: u32, b: u32) -> u32 {
+    (Felt::verif_from_raw(a) - Felt::verif_from_raw(b)).verif_raw()
+}
+pub fn felt_neg(a: u32) -> u32 {
+    (-Felt::verif_from_raw(a)).verif_raw()
+}
+pub fn felt_mul(a: u32, b: u32) -> u32 {
+    (Felt::verif_from_raw(a) * Felt::verif_from_raw(b)).verif_raw()
+}
+pub fn felt_multiply(a: u32, b: u32) -> u32 {
+    Felt::verif_from_raw(a)
+        .multiply(Felt::verif_from_raw(b))
+        .verif_raw()
+}
+pub fn felt_div(a: u32, b: u32) -> u32 {
+    (Felt::verif_from_raw(a) / Felt::verif_from_raw(b)).verif_raw()
+}
+pub fn felt_inverse_or_zero(a: u32) -> u32 {
+    Felt::verif_from_raw(a).inverse_or_zero().verif_raw()
+}
+pub fn felt_batch_inverse_or_zero(a: &[u32]) -> Vec<u32> {
+    let v: Vec<Felt> = a.iter().map(|&x| Felt::verif_from_raw(x)).collect();
+    Felt::batch_inverse_or_zero(&v)
+        .iter()
+        .map(|c| c.verif_raw())
+        .collect()
+}
+
+fn felt_poly(a: &[u32]) -> Polynomial<Felt> {
+    Polynomial::new(a.iter().map(|&x| Felt::verif_from_raw(x)).collect())
+}
+fn felt_raw(p: &Polynomial<Felt>) -> Vec<u32> {
+    p.coefficients.iter().map(|c| c.verif_raw()).collect()
+}
+pub fn felt_fft(a: &[u32]) -> Vec<u32> {
+    felt_raw(&felt_poly(a).fft())
+}
+pub fn felt_ifft(a: &[u32]) -> Vec<u32> {
+    felt_raw(&felt_poly(a).ifft())
+}
+pub fn felt_hadamard_mul(a: &[u32], b: &[u32]) -> Vec<u32> {
+    felt_raw(&felt_poly(a).hadamard_mul(&felt_poly(b)))
+}
+pub fn felt_hadamard_div(a: &[u32], b: &[u32]) -> Vec<u32> {
+    felt_raw(&felt_poly(a).hadamard_div(&felt_poly(b)))
+}
+pub fn felt_split_fft(a: &[u32]) -> (Vec<u32>, Vec<u32>) {
+    let (x, y) = felt_poly(a).split_fft();
+    (felt_raw(&x), felt_raw(&y))
+}
+pub fn felt_merge_fft(a: &[u32], b: &[u32]) -> Vec<u32> {
+    felt_raw(&Polynomial::<Felt>::merge_fft(&felt_poly(a), &felt_poly(b)))
+}
+
+pub fn u32f_new(v: i32) -> u32 {
+    U32Field::new(v).0
+}
+pub fn u32f_balanced(a: u32) -> i32 {
+    U32Field(a).balanced_value()
+}
+pub fn u32f_add(a: u32, b: u32) -> u32 {
+    (U32Field(a) + U32Field(b)).0
+}
+pub fn u32f_sub(a: u32, b: u32) -> u32 {
+    (U32Field(a) - U32Field(b)).0
+}
+pub fn u32f_mul(a: u32, b: u32) -> u32 {
+    (U32Field(a) * U32Field(b)).0
+}
+pub fn u32f_inverse_or_zero(a: u32) -> u32 {
+    U32Field(a).inverse_or_zero().0
+}
+fn u32f_poly(a: &[u32]) -> Polynomial<U32Field> {
+    Polynomial::new(a.iter().map(|&x| U32Field(x)).collect())
+}
+fn u32f_raw(p: &Polynomial<U32Field>) -> Vec<u32> {
+    p.coefficients.iter().map(|c| c.0).collect()
+}
+pub fn u32f_fft(a: &[u32]) -> Vec<u32> {
+    u32f_raw(&u32f_poly(a).fft())
+}
+pub fn u32f_ifft(a: &[u32]) -> Vec<u32> {
+    u32f_raw(&u32f_poly(a).ifft())
+}
+pub fn u32f_hadamard_mul(a: &[u32], b: &[u32]) -> Vec<u32> {
+    u32f_raw(&u32f_poly(a).hadamard_mul(&u32f_poly(b)))
+}
+
+fn cplx_poly(a: &[(f64, f64)]) -> Polynomial<Complex64> {
+    Polynomial::new(a.iter().map(|&(re, im)| Complex64::new(re, im)).collect())
+}
+fn cplx_raw(p: &Polynomial<Complex64>) -> Vec<(f64, f64)> {
+    p.coefficients.iter().map(|c| (c.re, c.im)).collect()
+}
+pub fn cplx_fft(a: &[(f64, f64)]) -> Vec<(f64, f64)> {
+    cplx_raw(&cplx_poly(a).fft())
+}
+pub fn cplx_ifft(a: &[(f64, f64)]) -> Vec<(f64, f64)> {
+    cplx_raw(&cplx_poly(a).ifft())
+}
+pub fn cplx_hadamard_mul(a: &[(f64, f64)], b: &[(f64, f64)]) -> Vec<(f64, f64)> {
+    cplx_raw(&cplx_poly(a).hadamard_mul(&cplx_poly(b)))
+}
+pub fn cplx_split_fft(a: &[(f64, f64)]) -> (Vec<(f64, f64)>, Vec<(f64, f64)>) {
+    let (x, y) = cplx_poly(a).split_fft();
+    (cplx_raw(&x), cplx_raw(&y))
+}
+pub fn cplx_merge_fft(a: &[(f64, f64)], b: &[(f64, f64)]) -> Vec<(f64, f64)> {
+    cplx_raw(&Polynomial::<Complex64>::merge_fft(
+        &cplx_poly(a),
+        &cplx_poly(b),
+    ))
+}
+
+pub fn base_sampler(bytes: [u8; 9]) -> i16 {
+    crate::samplerz::verif::base_sampler(bytes)
+}
+pub fn approx_exp(x: f64, ccs: f64) -> u64 {
+    crate::samplerz::verif::approx_exp(x, ccs)
+}
+pub fn ber_exp(x: f64, ccs: f64, random_bytes: [u8; 7]) -> bool {
+    crate::samplerz::verif::ber_exp(x, ccs, random_bytes)
+}
+pub fn sampler_z(mu: f64, sigma: f64, sigma_min: f64, rng: &mut dyn RngCore) -> i16 {
+    crate::samplerz::sampler_z(mu, sigma, sigma_min, rng)
+}
+
+pub fn gen_poly(n: usize, rng: &mut dyn RngCore) -> Vec<i16> {
+    crate::math::verif::gen_poly(n, rng).coefficients
+}
+pub fn gram_schmidt_norm_squared(f: &[i16], g: &[i16]) -> f64 {
+    crate::math::verif::gram_schmidt_norm_squared(
+        &Polynomial::new(f.to_vec()),
+        &Polynomial::new(g.to_vec()),
+    )
+}
+pub fn ntru_solve(f: &[BigInt], g: &[BigInt]) -> Option<(Vec<BigInt>, Vec<BigInt>)> {
+    crate::math::verif::ntru_solve(&Polynomial::new(f.to_vec()), &Polynomial::new(g.to_vec()))
+        .map(|(a, b)| (a.coefficients, b.coefficients))
+}
+pub fn ntru_solve_entrypoint(f: &[i32], g: &[i32]) -> Option<(Vec<i32>, Vec<i32>)> {
+    crate::math::verif::ntru_solve_entrypoint(
+        Polynomial::new(f.to_vec()),
+        Polynomial::new(g.to_vec()),
+    )
+    .map(|(a, b)| (a.coefficients, b.coefficients))
+}
+pub fn field_norm_i64(f: &[i64]) -> Vec<i64> {
+    Polynomial::new(f.to_vec()).field_norm().coefficients
+}
+pub fn lift_next_cyclotomic_i64(f: &[i64]) -> Vec<i64> {
+    Polynomial::new(f.to_vec()).lift_next_cyclotomic().coefficients
+}
+pub fn galois_adjoint_i64(f: &[i64]) -> Vec<i64> {
+    Polynomial::new(f.to_vec()).galois_adjoint().coefficients
+}
+pub fn karatsuba_i64(a: &[i64], b: &[i64]) -> Vec<i64> {
+    Polynomial::new(a.to_vec())
+        .karatsuba(&Polynomial::new(b.to_vec()))
+        .coefficients
+}
+pub fn reduce_by_cyclotomic_i64(a: &[i64], n: usize) -> Vec<i64> {
+    Polynomial::new(a.to_vec())
+        .reduce_by_cyclotomic(n)
+        .coefficients
+}
